@@ -11,39 +11,14 @@ open Libfive.Render Libfive.Pool
 
 /-! ## (a) `Mesh::render`: all or nothing -/
 
-/- FULL STATEMENT (false for the control flow as written):
-     theorem render_all_or_nothing (alg sz obs) (hm : Mono obs) :
-       render alg sz obs = none ∨ render alg sz obs = some true
-   i.e. for every assignment of "cancel observed / not observed" to every cancellation point the
-   result is `nullptr` or was produced by phases that all ran to completion. -/
-
-/-- **render_all_or_nothing is FALSE for the current flow**: DUAL_CONTOURING, a build that needs one
-    loop-head read, a walk that needs two; the flag is raised just before clock 3 (the first read
-    of the walk loop).  Reads 0 (build loop), 1 (end of `build`), 2 (mesh.cpp check) see nothing,
-    the walk workers leave at once, and a mesh is returned that the walk did not complete. -/
-theorem render_all_or_nothing_counterexample :
-    Mono (raisedAt (some 3)) ∧ render .dc ⟨1, 0, 2⟩ (raisedAt (some 3)) = some false :=
-  ⟨raisedAt_mono _, by decide⟩
-
-/-- the same for ISO_SIMPLEX with the flag raised during `assignIndices` -/
-theorem render_all_or_nothing_counterexample_index :
-    render .simplex ⟨1, 2, 2⟩ (raisedAt (some 4)) = some false := by decide
-
-/-- hence the universally quantified statement does not hold -/
-theorem render_all_or_nothing_false :
-    ¬ ∀ (alg : Alg) (sz : Sizes) (obs : Nat → Bool), Mono obs →
-        render alg sz obs = none ∨ render alg sz obs = some true := by
-  intro h
-  have := h .dc ⟨1, 0, 2⟩ _ (raisedAt_mono (some 3))
-  revert this
-  decide
-
-/-- **render_repaired** (the `…_repaired` version of `render_all_or_nothing`): with the same check
-    repeated after `assignIndices` and after `Dual::walk`, for every algorithm, all phase sizes
-    and every monotone assignment of observations the result is `nullptr` or complete. -/
-theorem render_repaired (alg : Alg) (sz : Sizes) (obs : Nat → Bool) (hm : Mono obs) :
-    renderFixed alg sz obs = none ∨ renderFixed alg sz obs = some true := by
-  unfold renderFixed
+/-- **render_all_or_nothing.**  For the control flow of `Mesh::render` as it stands (a read of the
+    flag after the build, after `assignIndices` and after the dual walk): for every algorithm,
+    all phase sizes and EVERY assignment of "cancel observed / not observed" to every
+    cancellation point of every phase that is consistent with a flag that is only ever raised
+    (`Mono obs`), the result is `nullptr` or was produced by phases that all ran to completion. -/
+theorem render_all_or_nothing (alg : Alg) (sz : Sizes) (obs : Nat → Bool) (hm : Mono obs) :
+    render alg sz obs = none ∨ render alg sz obs = some true := by
+  unfold render
   simp only
   by_cases h1 : obs (runPhase obs sz.build 0).2 = true
   · simp [h1]
@@ -54,47 +29,73 @@ theorem render_repaired (alg : Alg) (sz : Sizes) (obs : Nat → Bool) (hm : Mono
         | true => rfl
         | false => exact absurd (runPhase_interrupted obs hm _ _ hb _ (Nat.le_refl _)) h1
       simp only [h1, h2, Bool.or_self, Bool.false_eq_true, if_false]
-      by_cases h3 : obs (indexPhase alg obs sz ((runPhase obs sz.build 0).2 + 2)).2 = true
-      · simp [h3]
-      · have hi : (indexPhase alg obs sz ((runPhase obs sz.build 0).2 + 2)).1 = true := by
-          cases hi : (indexPhase alg obs sz ((runPhase obs sz.build 0).2 + 2)).1 with
+      have walk : ∀ c, (obs (runPhase obs sz.walk c).2 = true) ∨
+          (obs (runPhase obs sz.walk c).2 = false ∧ (runPhase obs sz.walk c).1 = true) := by
+        intro c
+        by_cases h4 : obs (runPhase obs sz.walk c).2 = true
+        · exact Or.inl h4
+        · refine Or.inr ⟨by simpa using h4, ?_⟩
+          cases hw : (runPhase obs sz.walk c).1 with
           | true => rfl
-          | false => exact absurd (indexPhase_interrupted alg obs hm sz _ hi _ (Nat.le_refl _)) h3
-        simp only [h3, Bool.false_eq_true, if_false]
-        by_cases h4 : obs (runPhase obs sz.walk ((indexPhase alg obs sz ((runPhase obs sz.build 0).2 + 2)).2 + 1)).2 = true
-        · simp [h4]
-        · have hw : (runPhase obs sz.walk ((indexPhase alg obs sz ((runPhase obs sz.build 0).2 + 2)).2 + 1)).1 = true := by
-            cases hw : (runPhase obs sz.walk ((indexPhase alg obs sz ((runPhase obs sz.build 0).2 + 2)).2 + 1)).1 with
+          | false => exact absurd (runPhase_interrupted obs hm _ _ hw _ (Nat.le_refl _)) h4
+      cases alg with
+      | dc =>
+        simp only
+        rcases walk ((runPhase obs sz.build 0).2 + 2) with h | ⟨h, hw⟩
+        · simp [h]
+        · simp [h, hb, hw]
+      | simplex =>
+        simp only
+        by_cases h3 : obs (indexPhase .simplex obs sz ((runPhase obs sz.build 0).2 + 2)).2 = true
+        · simp [h3]
+        · have hi : (indexPhase .simplex obs sz ((runPhase obs sz.build 0).2 + 2)).1 = true := by
+            cases hi : (indexPhase .simplex obs sz ((runPhase obs sz.build 0).2 + 2)).1 with
             | true => rfl
-            | false => exact absurd (runPhase_interrupted obs hm _ _ hw _ (Nat.le_refl _)) h4
-          simp [h4, hb, hi, hw]
+            | false => exact absurd (indexPhase_interrupted _ obs hm sz _ hi _ (Nat.le_refl _)) h3
+          simp only [h3, Bool.false_eq_true, if_false]
+          rcases walk ((indexPhase .simplex obs sz ((runPhase obs sz.build 0).2 + 2)).2 + 1) with h | ⟨h, hw⟩
+          · simp [h]
+          · simp [h, hb, hi, hw]
+      | hybrid =>
+        simp only
+        by_cases h3 : obs (indexPhase .hybrid obs sz ((runPhase obs sz.build 0).2 + 2)).2 = true
+        · simp [h3]
+        · have hi : (indexPhase .hybrid obs sz ((runPhase obs sz.build 0).2 + 2)).1 = true := by
+            simp [indexPhase]
+          simp only [h3, Bool.false_eq_true, if_false]
+          rcases walk ((indexPhase .hybrid obs sz ((runPhase obs sz.build 0).2 + 2)).2 + 1) with h | ⟨h, hw⟩
+          · simp [h]
+          · simp [h, hb, hi, hw]
 
-/-- **render_uncancelled.** If no read ever observes the flag, both flows return a complete mesh. -/
+/-- **render_uncancelled.** If no read ever observes the flag, a complete mesh is returned. -/
 theorem render_uncancelled (alg : Alg) (sz : Sizes) :
-    render alg sz (fun _ => false) = some true ∧ renderFixed alg sz (fun _ => false) = some true := by
+    render alg sz (fun _ => false) = some true := by
   have hq : ∀ n c, runPhase (fun _ => false) n c = (true, c + n) :=
     fun n c => runPhase_quiet _ n c (fun _ _ _ => rfl)
-  constructor
-  · unfold render; cases alg <;> simp [hq, indexPhase]
-  · unfold renderFixed; cases alg <;> simp [hq, indexPhase]
+  unfold render; cases alg <;> simp [hq, indexPhase]
 
-/-- **render_partial_mechanism.** The current flow returns a partial mesh only in one way: the
-    build completed, neither read after it saw the flag, and the flag was raised later (during
-    `assignIndices` or the dual walk).  This is what the known-finding key is tied to. -/
-theorem render_partial_mechanism (alg : Alg) (sz : Sizes) (obs : Nat → Bool) (hm : Mono obs)
-    (h : render alg sz obs = some false) :
-    (runPhase obs sz.build 0).1 = true ∧ obs (runPhase obs sz.build 0).2 = false ∧
-    obs ((runPhase obs sz.build 0).2 + 1) = false := by
-  unfold render at h
-  simp only at h
-  by_cases h1 : obs (runPhase obs sz.build 0).2 = true
-  · simp [h1] at h
-  · by_cases h2 : obs ((runPhase obs sz.build 0).2 + 1) = true
-    · simp [h2] at h
-    · refine ⟨?_, by simpa using h1, by simpa using h2⟩
-      cases hb : (runPhase obs sz.build 0).1 with
-      | true => rfl
-      | false => exact absurd (runPhase_interrupted obs hm _ _ hb _ (Nat.le_refl _)) h1
+/-- Record of the defect repaired by f00be3c: in the PRE-FIX flow `renderOld` (no read after
+    `assignIndices` / `Dual::walk`) the statement was false — DUAL_CONTOURING, one build read, two
+    walk reads, flag raised just before clock 3 (the first read of the walk loop): a mesh the walk
+    did not complete was returned.  The current flow returns `nullptr` on the same input. -/
+theorem renderOld_counterexample :
+    Mono (raisedAt (some 3)) ∧ renderOld .dc ⟨1, 0, 2⟩ (raisedAt (some 3)) = some false ∧
+    render .dc ⟨1, 0, 2⟩ (raisedAt (some 3)) = none :=
+  ⟨raisedAt_mono _, by decide, by decide⟩
+
+/-- the same for ISO_SIMPLEX with the flag raised during `assignIndices` -/
+theorem renderOld_counterexample_index :
+    renderOld .simplex ⟨1, 2, 2⟩ (raisedAt (some 4)) = some false ∧
+    render .simplex ⟨1, 2, 2⟩ (raisedAt (some 4)) = none := by decide
+
+/-- hence all-or-nothing did not hold for the pre-fix flow -/
+theorem renderOld_not_all_or_nothing :
+    ¬ ∀ (alg : Alg) (sz : Sizes) (obs : Nat → Bool), Mono obs →
+        renderOld alg sz obs = none ∨ renderOld alg sz obs = some true := by
+  intro h
+  have := h .dc ⟨1, 0, 2⟩ _ (raisedAt_mono (some 3))
+  revert this
+  decide
 
 /-! ## (b) the worker pool -/
 
@@ -188,7 +189,7 @@ example : brun (BState.init 2) [.install 1, .install 0, .dec 1, .dec 0] =
     some ⟨2 ^ 32 - 1, [0, 1], [0, 1], [0]⟩ := by decide
 example : Mono (raisedAt (some 3)) := raisedAt_mono _
 example : render .simplex ⟨3, 2, 4⟩ (raisedAt none) = some true := by decide
-example : renderFixed .dc ⟨1, 0, 2⟩ (raisedAt (some 3)) = none := by decide
+example : render .hybrid ⟨2, 0, 3⟩ (raisedAt (some 9)) = some true := by decide
 -- a pool run: one worker pops the root of a one-level 1-ary tree, splits it, evaluates the child, collects
 example : (run (S.init 1 1 1) [.loop 0, .pop 0 0, .evalDone 0 .amb, .push 0 1 false, .loop 0, .pop 0 1,
     .evalDone 0 .leaf, .collect 0 true, .exitRoot 0]).isSome = true := by decide
